@@ -602,7 +602,7 @@ impl<'a> ExpandedSelection<'a> {
             if fields.peek().is_none() {
                 let item = quote! {
                     #response_derives
-                    #[serde(tag = "__typename")]
+                    #[serde(crate = #serde_path, tag = "__typename")]
                     pub enum #struct_name {
                         #(#on_variants),*
                     }
@@ -618,7 +618,7 @@ impl<'a> ExpandedSelection<'a> {
 
                 let on_enum = quote!(
                     #response_derives
-                    #[serde(tag = "__typename")]
+                    #[serde(crate = #serde_path, tag = "__typename")]
                     pub enum #enum_name {
                         #(#on_variants,)*
                     }
